@@ -283,6 +283,55 @@ def _run_case(case):
                          {"first": [len(x) for x in a.top.got], "second": [len(x) for x in b.top.got], "expected": [len(f) for f in frames]})
         out.info = {"inside": bool(inside)}
         return out
+    if sub == "dispatcher":
+        # the stream as the default transport reads it: bursts of bytes become pending on the socket, the library's asynchronous
+        # dispatcher reads them (its read size per event is its own business) and the network layer feeds the framing layer
+        import yowsup.layers.network.layer as netmod
+        from yowsup.layers import YowLayerEvent
+        from yowsup.layers.network.layer import YowNetworkLayer
+        from ..kit import netkit, stackkit
+        lens = case["lens"]
+        frames = [frame_bytes(j, n, 0) for j, n in enumerate(lens)]
+        stream = stream_of(frames)
+        Driven, DA = netkit.driven_asyncore_class()
+        Driven.made = []
+        Driven.caps = None
+        saved = (netmod.AsyncoreConnectionDispatcher, netmod.SocketConnectionDispatcher)
+        netmod.AsyncoreConnectionDispatcher = netmod.SocketConnectionDispatcher = Driven
+        DA.asyncore = netkit.AsyncoreShim(DA.asyncore)
+        try:
+            stack = stackkit.new_stack_class()((YowNetworkLayer, YowNoiseSegmentsLayer, stackkit.Top), reversed=False,
+                                               props=dict(PROPS, **{YowNetworkLayer.PROP_ENDPOINT: ("e1.whatsapp.net", 443)}))
+            top = stack.getLayer(2)
+            stack.broadcastEvent(YowLayerEvent(YowNetworkLayer.EVENT_STATE_CONNECT))
+            d = Driven.made[-1]
+            d.h_establish()
+            out.label("through_the_asynchronous_dispatcher")
+            prev = 0
+            L = len(stream)
+            for c in sorted(set(x % L for x in case["bursts"]) - {0}) + [L]:
+                if c <= prev:
+                    continue
+                if (c - prev) % 1024 == 0:
+                    out.label("burst_is_a_multiple_of_the_read_size")
+                try:
+                    d.h_data(stream[prev:c])
+                except Exception as e:
+                    out.fail("incoming", "incoming:dispatcher:exception", {"at": c, "error": repr(e)[:200]})
+                    return out
+                prev = c
+                got = [bytes(g) for g in top.got]
+                whole = sum(1 for b in itertools.accumulate(3 + n for n in lens) if b <= c)
+                if got != frames[:whole]:
+                    out.fail("incoming", "incoming:dispatcher:frames_differ",
+                             {"at": c, "delivered_lengths": [len(g) for g in got][:12], "expected_lengths": [len(f) for f in frames[:whole]][:12],
+                              "lens": lens, "bursts": case["bursts"]})
+                    return out
+            out.info = {"inside": len(case["bursts"]) > 0}
+            return out
+        finally:
+            netmod.AsyncoreConnectionDispatcher, netmod.SocketConnectionDispatcher = saved
+            DA.asyncore = DA.asyncore._real
     if sub == "outgoing":
         n = case["n"]
         fill = case.get("fill", 0)
@@ -319,6 +368,8 @@ def _run_case(case):
 
 
 def nontrivial(case, out):
+    if case["sub"] == "dispatcher":
+        return len(case["lens"]) >= 2 and bool(out.info and out.info["inside"])
     if case["sub"] == "stream":
         return len(case["lens"]) >= 2 and bool(out.info and out.info["inside"])
     if case["sub"] == "outgoing":
@@ -393,6 +444,29 @@ def stream_strategy(tier):
     return build()
 
 
+def dispatcher_strategy():
+    # frame and burst sizes around the dispatcher's read size (1024) and its multiples, besides arbitrary ones
+    near = st.sampled_from([1018, 1019, 1020, 1021, 1022, 1023, 1024, 1025, 2045, 2046, 2047, 2048, 3069, 4093, 70000])
+    length = st.one_of(st.integers(1, 40), st.integers(1, 3000), near)
+    lens = st.lists(length, min_size=1, max_size=6)
+
+    @st.composite
+    def build(draw):
+        ls = draw(lens)
+        L = sum(3 + n for n in ls)
+        bounds = list(itertools.accumulate(3 + n for n in ls))
+        cut = st.one_of(st.sampled_from(bounds), st.sampled_from([1024, 2048, 3072, 4096]), st.integers(1, max(1, L - 1)))
+        return {"sub": "dispatcher", "lens": ls, "bursts": sorted(set(draw(st.lists(cut, min_size=0, max_size=8))))}
+    return build()
+
+
+def _enum_dispatcher():
+    for lens in ([5, 2, 9], [1021], [1021, 1021], [2045, 7], [500, 518, 3], [70000, 3]):
+        L = sum(3 + n for n in lens)
+        for bursts in ([], list(itertools.accumulate(3 + n for n in lens))[:-1], list(range(1024, L, 1024)), list(range(700, L, 700))):
+            yield {"sub": "dispatcher", "lens": lens, "bursts": bursts}
+
+
 def outgoing_strategy():
     return st.builds(lambda n, f: {"sub": "outgoing", "n": n, "fill": f},
                      st.one_of(st.integers(0, 600), st.integers(60000, 70000), st.integers(0, 1 << 20)),
@@ -408,11 +482,13 @@ def plan(tier):
             ("adversarial_fill_partitions", _enum_fills),
             ("outgoing_boundaries", _enum_outgoing),
             ("upper_layer_fails_on_a_frame", _enum_upper_raises),
+            ("through_the_dispatcher", _enum_dispatcher),
         ],
         "exhaustive": ["partitions_len1-%d" % (3 if quick else 4), "adversarial_fill_partitions"],
         "strategies": [
             ("stream", stream_strategy(tier), 150 if quick else 20000),
             ("outgoing", outgoing_strategy(), 40 if quick else 2000),
+            ("dispatcher", dispatcher_strategy(), 60 if quick else 4000),
         ],
         "shrink": "hypothesis",
         "budget_s": 120 if quick else 1500,
